@@ -6,8 +6,14 @@ import Tahoe.Props.C33
 C32 — Servers are ordered consistently and upload permission is enforced.
 
 Statements are about `Tahoe.StorageClient.getServersForPsi` (model of
-`StorageFarmBroker.get_servers_for_psi`) and `updateGoal` (model of `Publish.update_goal`), tied to
-the code by `harness/props/c32.py`.
+`StorageFarmBroker.get_servers_for_psi`; `getServersForPsiBytes` with the SHA-1 of storage index +
+seed computed in Lean), `serversAt` / `serversAfter` (the same selection composed with the C33
+certificate verifier over announced servers and over announcement histories — the broker keeps the
+latest announcement per server id) and `updateGoal` (model of `Publish.update_goal`).  14 theorems.
+Tied to the code by `harness/props/c32.py` (driver ops `psi`, `psib`, `hist`, `goal`) and, for
+`serversAtA`, by the `offer` lines of `harness/props/c33.py`.  The `peers.preferred` defect found
+through this check (configured ids kept as `str`) is repaired in /repo
+(`fixes/C32-preferred-bytes.diff`, committed); the model is the repaired behaviour.
 -/
 /-!
 ## Coverage of the statement
